@@ -278,9 +278,9 @@ theorem assembleStmt_length {regs : List String} {gz : Int × Int} {env : String
     | ok ops =>
       simp only [hops] at h
       cases henc : encodeInstr addr ops v.opcode (if v.count.isNone then none else v.suffix) m.revArgs m.revCodes with
-      | error e => simp [henc] at h
+      | error e => rw [henc] at h; simp at h
       | ok r =>
-        simp only [henc] at h
+        rw [henc] at h
         cases r with
         | none => simp at h
         | some bs' =>
@@ -290,5 +290,37 @@ theorem assembleStmt_length {regs : List String} {gz : Int × Int} {env : String
           rw [encodeInstr_length henc, stmtSize_eq]
           unfold instrSize
           exact byteSizeOf_fieldOrder_congr _ _ _ _ _ _ (mapM_toSrcOp_nz hops)
+
+/-- the step loop emits, for every label environment and address, exactly the bytes that the first
+    pass reserved from selection alone -/
+theorem assembleSteps_length {regs : List String} {gz : Int × Int} {env : String → Option Int} {tbl : InstrTable} :
+    ∀ {steps : List (String × List Form)} {addr : Int} {bs : List Nat},
+      assembleSteps regs gz env tbl addr steps = .ok bs →
+      ∃ sizes, stepSizes regs gz tbl steps = some sizes ∧ bs.length = sizes.sum
+  | [], addr, bs, h => by
+    simp only [assembleSteps, Except.ok.injEq] at h
+    subst h
+    exact ⟨[], rfl, rfl⟩
+  | (mn, fs) :: rest, addr, bs, h => by
+    cases ht : tbl.find? (·.1 == mn) with
+    | none => rw [assembleSteps_cons_none _ _ _ _ _ _ _ _ ht] at h; simp at h
+    | some xv =>
+      rcases xv with ⟨x, variants⟩
+      cases h1 : assembleStmt regs gz env addr variants fs with
+      | error e => rw [assembleSteps_cons_error _ _ _ _ _ _ _ _ _ _ _ ht h1] at h; simp at h
+      | ok r =>
+        rcases r with ⟨i, b1⟩
+        rw [assembleSteps_cons_ok _ _ _ _ _ _ _ _ _ _ _ _ ht h1] at h
+        cases hr : assembleSteps regs gz env tbl (addr + b1.length) rest with
+        | error e => rw [hr] at h; simp [Except.map] at h
+        | ok tail =>
+          rw [hr] at h
+          simp only [Except.map, Except.ok.injEq] at h
+          subst h
+          obtain ⟨v, m, hsel, hlen⟩ := assembleStmt_length h1
+          obtain ⟨sizes, hsz, hsum⟩ := assembleSteps_length hr
+          refine ⟨stmtSize v m :: sizes, ?_, ?_⟩
+          · simp only [stepSizes, ht, hsel, hsz, Option.map_some]
+          · simp only [List.length_append, List.sum_cons, hlen, hsum]
 
 end BV
